@@ -55,6 +55,8 @@ def enrich_repeats(prog, rnd, consts):
                     apm.insn("mov", ("idx", ("bin", "+", ("sym", rnd.choice(consts)) if consts else apm.num(4), apm.num(2)), rnd.randrange(6)), ("reg", 1)),
                     apm.insn("clr", ("idxd", apm.num(-2), rnd.randrange(6))),
                     apm.insn("add", ("imm", ("bin", "-", ("dot",), apm.num(2, "d"))), ("idx", ("bin", "*", apm.num(2), apm.num(3)), 2)),
+                    apm.wordlist(apm.num(5), ("bin", "/", ("dot",), apm.num(2))),
+                    apm.wordlist(apm.num(0), ("bin", "%", ("dot",), apm.num(0o100)), ("bin", ">>", ("dot",), apm.num(1))),
                     apm.data(".byte", apm.num(1)),
                     apm.simple(".even"),
                     apm.blk(".blkb", ("bin", "&", ("dot",), apm.num(3))),
